@@ -181,6 +181,10 @@ def run(check, mirror, tier):
     jobs.append(lambda c: decide(c, crate, "scope_balance/build_filter", setup_filter, post_common, lambda i, rb: replay_scope("filter", i, rb), rb,
                                  models=MODELS, unwind=6 * (L + 2), describe=lambda m, inputs: {k: model_value(m, v) for k, v in inputs.items() if not k.startswith("_")},
                                  budget_s=900, min_paths=2, timeout_ms=20000))
+    # context literals and positional calls of user-defined functions push contexts too (obligations shared with C01: scope restored,
+    # exactly one temporary context on top of the caller's while sub-expressions run)
+    import checks.C01_ops as ops
+    ops.jobs_for(check, mirror, rb, crate, None, U, jobs, tier, {}, select={"context_literal_job", "function_positional_job"})
     parser_jobs(check, mirror, rb, jobs, tier)
     run_parallel(check, jobs)
 
